@@ -374,6 +374,12 @@ begin
               and effective_date <= _effective_date
             order by effective_date desc, seq desc
             limit 1;
+
+            -- no move at or before that date (the transaction is dated before everything the account has seen):
+            -- select into leaves NULLs, the effective volumes start from zero
+            if not found then
+                _effective_post_commit_volumes = (0, 0)::volumes;
+            end if;
         end if;
     end if;
 
